@@ -3,6 +3,10 @@ Every generator is a function of a random.Random."""
 from .terms import A, I, V, C, L, NIL
 
 ATOMS = ['a', 'b', 'c']
+# atoms whose text looks like something else: a variable of the pool, an internal name of the code generator,
+# two arguments, a keyword. They must stay atoms wherever they occur (rendered quoted when necessary).
+ODD_ATOMS = ['X', 'Y', 'Z', '_1', 'X1', 'x1', 'x2', 'arg1', 'l1', 'a,b', 'a, b', 'f(a)', '[]', 'yield', 'doBreak', 'cutIf1',
+             'X,Y', "it's", 'A b']
 # besides ordinary names: names that a compiler-internal naming scheme (for `_`, arguments, loop variables,
 # labels) could collide with - every Prolog variable must stay its own variable
 VARNAMES = ['X', 'Y', 'Z', 'U', 'W', 'X', 'Y', 'Z', '_1', '_2', 'X1', 'X2', 'L1', 'Arg1', '_G1', '_x1', '_arg1', '__1',
@@ -18,6 +22,8 @@ def gen_term(rng, vars_, d, anon_ok=True, atoms=ATOMS):
         if r2 < 0.5 and anon_ok:
             return V('_')
         if r2 < 0.8:
+            if rng.random() < 0.12:
+                return A(rng.choice(ODD_ATOMS))
             return A(rng.choice(atoms))
         if r2 < 0.9:
             return I(rng.choice([0, 1, 2]))
@@ -298,3 +304,43 @@ def body_has(b, kind):
     if b[0] == 'not':
         return body_has(b[1], kind)
     return body_has(b[1], kind) or body_has(b[2], kind)
+
+
+# -- confusable twins: two terms with the same printed text but different structure ------------------------
+
+def _compounds_with_vars(t, acc):
+    if t[0] == 'c':
+        if any(a[0] == 'v' and a[1] != '_' for a in t[2]):
+            acc.append(t)
+        for a in t[2]:
+            _compounds_with_vars(a, acc)
+    return acc
+
+
+def _body_terms(b, acc):
+    if b[0] == 'call':
+        acc.append(b[1])
+    elif b[0] in ('and', 'or', 'then'):
+        _body_terms(b[1], acc)
+        _body_terms(b[2], acc)
+    elif b[0] == 'not':
+        _body_terms(b[1], acc)
+    return acc
+
+
+def add_confusable_twin(rng, clauses):
+    """adds a fact cf(T') where T' is a compound term of the program with one variable replaced by the ATOM of the
+    same name ('X' vs X), or `_`-adjacent names; placed before or after the program. Returns the new clause list."""
+    cands = []
+    for h, b in clauses:
+        _compounds_with_vars(h, cands)
+        for t in _body_terms(b, []):
+            _compounds_with_vars(t, cands)
+    if not cands:
+        return clauses
+    t = rng.choice(cands)
+    vs = [a for a in t[2] if a[0] == 'v' and a[1] != '_']
+    v = rng.choice(vs)
+    twin = ('c', t[1], tuple(A(v[1]) if a == v else a for a in t[2]))
+    extra = [(C('cf', twin), ('true',)), (C('cg', t), ('true',))]
+    return extra + clauses if rng.random() < 0.5 else clauses + extra
